@@ -27,7 +27,8 @@ Clauses, named "<prop>.<env>.<clause>" with env in fjsp|jssp|ffsp|smtwtp:
   C04 *.solo|rebatch.masks|done-step|reward   same instance + same actions stepped alone (batch 1) and inside another
                                      batch (other size/position, next to copies of itself and other instances, random
                                      post-finish padding): identical masks before every step, finishing step, reward
-Bound: printed in the result ("bound"). Exhaustive part = ALL mask-admitted action sequences (incl. waits) of tiny
+Bound: printed in the result ("bound"; quick ~57k complete episodes in ~20 s + 7 s imports, thorough ~690k in ~4 min,
+2 GB RSS). Options: --only fjsp,jssp,ffsp,smtwtp restricts the envs, --prop Cxx the reported clauses. Exhaustive part = ALL mask-admitted action sequences (incl. waits) of tiny
 instances, explored breadth-first with the whole frontier stepped as one batch (rows = instance x action prefix, so
 every row sits next to copies of itself at other progress); random part = uniformly random feasible actions.
 """
@@ -510,7 +511,7 @@ def main():
         RJP += [jp(8, 4, 50, min_ops_per_job=2, max_ops_per_job=5, **loose), dict(num_jobs=10, num_machines=5)]
         RFF += [dict(num_stage=3, num_machine=3, num_job=6), dict(num_stage=3, num_machine=4, num_job=8)]
         RSM += (12, 20)
-    bound = (f"tier={ARGS.tier} seed={ARGS.seed}. EXHAUSTIVE = every mask-admitted action sequence (incl. waits) of {nx} generated "
+    bound = (f"tier={ARGS.tier} seed={ARGS.seed} envs={ARGS.only or 'fjsp,jssp,ffsp,smtwtp'}. EXHAUSTIVE = every mask-admitted action sequence (incl. waits) of {nx} generated "
              f"instances per config, frontier stepped as one batch: FJSP {[(g, m) for g, m in XFJ]} ; JSSP {[(g, m) for g, m in XJP]} "
              f"(second element = mask_no_ops values); FJSP/JSSP instances read from {len(FILES['fjsp'])}/{len(FILES['jssp'])} hand-written FJSPLIB/JSSP "
              f"text files (2 jobs x 2 machines, 2-4 ops, padded to a common width) x mask_no_ops in (True,False); FFSP {XFF}; SMTWTP all n! orders, "
